@@ -47,6 +47,17 @@ def conc_cfg(r):
         names.append(n)
         scopes[n] = (sc, c)
     # contextual / non_shared pointer values: a fresh instance is required per construction
+    # one declared-shared service carries a tag of its own with a decorator of its own: the decorator runs once per container
+    solo = [n for n, (sc, _) in scopes.items() if sc == "shared"]
+    decs = []
+    if solo and r.random() < 0.6:
+        svcs[solo[0]]["tags"] = (svcs[solo[0]].get("tags") or []) + ["solo"]
+        decs = [{"tag": "solo", "decorator": "Wrap", "arguments": ["%pa%"]}]
+        scopes["__solo__"] = (solo[0], None)
+    # arguments that are evaluated inline on every construction (no parameter cache involved)
+    for n in list(svcs):
+        if r.random() < 0.3:
+            svcs[n]["arguments"] = svcs[n]["arguments"] + [r.choice(["%env(\"GV_UNSET\", \"dflt\")%", "%envInt(\"GV_UNSET\", 7)%", "!value Value"])]
     svcs["val"] = {"value": "&MyStruct{}", "scope": r.choice(["contextual", "non_shared"]), "fields": {"Name": "%pa%"}, "getter": "GetVal", "type": "*T"}
     # repair the scope rule: shared must not depend on contextual -> drop offending references
     ctxl = {n for n, (sc, _) in scopes.items() if sc == "contextual"}
@@ -56,6 +67,8 @@ def conc_cfg(r):
     cfg = {"meta": {"functions": {"fa": "GetEnv", "fb": "Lookup", "fc": "Fn"}},
            "parameters": {"pa": "%fa(\"a\")%", "pb": "%fb(\"b\")% and %pa%", "pc": "%fc(\"c\")%"},
            "services": svcs}
+    if decs:
+        cfg["decorators"] = decs
     return cfg, scopes
 
 
@@ -107,7 +120,8 @@ def run(tier, seed, replay):
         sp["cfg"] = cfg
         sp["what"] = ["concurrent" + ("/overlay" if k % 2 else "")]
         specs.append(sp)
-        metas.append(scopes)
+        metas.append({a: b for a, b in scopes.items() if a != "__solo__"})
+        sp["solo"] = (scopes.get("__solo__") or (None, None))[0]
     nbait = 0
     for cfg in bait_cfgs():
         sp = common.mk_spec(len(specs), [cfg], keep_out=True)
@@ -152,7 +166,9 @@ def run(tier, seed, replay):
         p = subprocess.run(["go", "build", "-race", "-o", bindir + "/", "./gen/..."], cwd=b.dir, env=envb, stdout=subprocess.PIPE, stderr=subprocess.STDOUT, text=True, timeout=1800)
         race_ok = p.returncode == 0
         if not race_ok:
-            # no cgo / race runtime available: fall back to a plain build (counters and identity are still checked)
+            # no cgo / race runtime available: fall back to a plain build (counters and identity are still checked); the data-race
+            # half of the search is then NOT done, which is reported
+            out.broke("search:C20 race detector unavailable (go build -race failed)", p.stdout[-1500:])
             p = subprocess.run(["go", "build", "-o", bindir + "/", "./gen/..."], cwd=b.dir, env=gobuild.GOENV, stdout=subprocess.PIPE, stderr=subprocess.STDOUT, text=True, timeout=1800)
         penv = {"PATH": os.environ.get("PATH", ""), "GORACE": "halt_on_error=0"}
         # run all probe processes up front, several at a time (each one is an independent container in its own process)
@@ -163,8 +179,9 @@ def run(tier, seed, replay):
 
         def _probe(job):
             k, rr = job
-            return job, subprocess.run([os.path.join(bindir, names[k]), os.path.join(b.dir, names[k] + ".ops.json"), "concurrent", "24", "2", str(seed * 100 + rr)],
-                                       env=penv, stdout=subprocess.PIPE, stderr=subprocess.PIPE, text=True, timeout=600)
+            # odd runs: 6 contexts shared by 4 goroutines each, constructors yield the processor; even runs: one context per goroutine
+            return job, subprocess.run([os.path.join(bindir, names[k]), os.path.join(b.dir, names[k] + ".ops.json"), "concurrent", "24", "2", str(seed * 100 + rr), "6" if rr % 2 else "24"],
+                                       env=dict(penv, **({"GV_YIELD": "1"} if rr % 2 else {})), stdout=subprocess.PIPE, stderr=subprocess.PIPE, text=True, timeout=600)
         with ThreadPoolExecutor(5) as ex:
             probed = dict(ex.map(_probe, jobs))
         for k, name in names.items():
@@ -191,6 +208,11 @@ def run(tier, seed, replay):
                     break
                 lines = [json.loads(l) for l in q.stdout.splitlines() if l.strip()]
                 inv = lines[0]["v"]
+                failed = sorted({(o["op"], o["name"]) for g in lines[1:] for o in g["obs"] if o.get("err")})
+                if failed:
+                    # none of these configurations has a failing constructor, function or reference: sequentially every operation succeeds
+                    out.violation("concurrent-op-fails", "operations that cannot fail sequentially return an error under concurrent use: %s" % failed[:5], rep)
+                    break
                 # shared services: constructor invoked at most once per container
                 from vlib import spec as _spec
                 _d = _spec.Deps(cfg)
@@ -204,10 +226,22 @@ def run(tier, seed, replay):
                         dist["max_shared_ctor_calls"] = max(dist["max_shared_ctor_calls"], inv.get(ctor, 0))
                         if inv.get(ctor, 0) > 1:
                             out.violation("shared-constructed-twice", "shared service %s: its constructor ran %d times under concurrent Get" % (s, inv[ctor]), rep)
+                        elif inv.get(ctor, 0) != 1:
+                            out.violation("shared-not-constructed", "shared service %s was obtained by every goroutine but its constructor ran %d times" % (s, inv.get(ctor, 0)), rep)
+                        # ... and everybody got that one instance, through Get, GetInContext and the getter
+                        sers = {o["serial"] for g in lines[1:] for o in g["obs"] if o["op"] in ("get", "getctx") and o["name"] == s} | \
+                               {o["serial"] for g in lines[1:] for o in g["obs"] if o["op"] == "getter" and o["name"] == cfg["services"][s]["getter"]}
+                        if len(sers) != 1 and specs[k].get("solo") != s:
+                            out.violation("shared-identity", "shared service %s: %d different instances were handed out (%s)" % (s, len(sers), sorted(sers)[:5]), rep)
+                if specs[k].get("solo"):
+                    if inv.get("Wrap", 0) != 1:
+                        out.violation("decorator-ran-%s" % ("twice" if inv.get("Wrap", 0) > 1 else "never"), "the decorator of the shared service %s ran %d times" % (specs[k]["solo"], inv.get("Wrap", 0)), rep)
                 for fn in ("GetEnv", "Lookup", "Fn"):
                     dist["max_param_fn_calls"] = max(dist["max_param_fn_calls"], inv.get(fn, 0))
                     if inv.get(fn, 0) > 1:
                         out.violation("param-evaluated-twice", "parameter function %s ran %d times: a parameter was evaluated more than once" % (fn, inv[fn]), rep)
+                    elif inv.get(fn, 0) != 1:
+                        out.violation("param-not-evaluated", "every goroutine read the parameters, but parameter function %s ran %d times" % (fn, inv.get(fn, 0)), rep)
                 # contextual services: the instances one goroutine (= one context) sees via getctx are its own
                 owner = {}
                 # nested instances: an object of a contextual service (identified by its own constructor) reachable from what one
@@ -220,18 +254,27 @@ def run(tier, seed, replay):
                             origin, _, ser = item.rpartition("#")
                             cname = origin.rsplit(".", 1)[-1]
                             if cname in ctx_ctors:
-                                if item in nested_owner and nested_owner[item] != g["g"]:
+                                if item in nested_owner and nested_owner[item] != g.get("ctx", g["g"]):
                                     out.violation("contextual-shared-between-contexts", "contextual service %s: instance %s is reachable from objects handed to two different contexts (via %s)" % (ctx_ctors[cname], item, o["name"]), rep)
-                                nested_owner[item] = g["g"]
+                                nested_owner[item] = g.get("ctx", g["g"])
                 for g in lines[1:]:
                     for o in g["obs"]:
                         if o["op"] == "getctx" and o["serial"] not in ("", "0"):
                             sc = (cfg["services"].get(o["name"]) or {}).get("scope")
                             if sc == "contextual":
                                 key = (o["name"], o["serial"])
-                                if key in owner and owner[key] != g["g"]:
+                                if key in owner and owner[key] != g.get("ctx", g["g"]):
                                     out.violation("contextual-shared-between-contexts", "contextual service %s: one instance observed from two different contexts" % o["name"], rep)
-                                owner[key] = g["g"]
+                                owner[key] = g.get("ctx", g["g"])
+                # ... and within one context there is one instance, whichever goroutine of that context asked, in every round
+                per_ctx = {}
+                for g in lines[1:]:
+                    for o in g["obs"]:
+                        if o["op"] == "getctx" and (cfg["services"].get(o["name"]) or {}).get("scope") == "contextual" and o["serial"] not in ("", "0"):
+                            per_ctx.setdefault((g.get("ctx", g["g"]), o["name"]), set()).add(o["serial"])
+                for (cx_, nm_), ss in per_ctx.items():
+                    if len(ss) > 1:
+                        out.violation("contextual-built-twice-in-one-context", "contextual service %s: context %s was handed %d different instances (%s)" % (nm_, cx_, len(ss), sorted(ss)[:4]), rep)
                 nontrivial.add(json.dumps(inv, sort_keys=True))
             if len(samples) < 2:
                 samples.append({"config": cfggen.to_yaml(cfg)[:1200], "invocations": inv})
